@@ -44,6 +44,7 @@ type HarnessCfg struct {
 	Thorough  TierCfg  `json:"thorough"`
 	Replay    string   `json:"replay"` // "native" (default) | "none"
 	Redirect  map[string]string `json:"redirect"`
+	Pure      []string `json:"pure"`
 	Bounds    string   `json:"bounds"`
 	Models    []string `json:"models"`
 	AllowPanics bool   `json:"allow_panics"`
@@ -199,7 +200,7 @@ func tierOf(h *HarnessCfg, tier string) *TierCfg {
 }
 
 func mkConfig(t *TierCfg, tier string, workers int) *Config {
-	cfg := &Config{Unwind: 40, MaxDepth: 200, Solver: "z3", TimeoutMs: 20000, Workers: workers, MaxPaths: 400000,
+	cfg := &Config{Unwind: 40, MaxDepth: 200, Solver: "z3-new", TimeoutMs: 20000, Workers: workers, MaxPaths: 400000,
 		MapOrder: 1, Params: map[string]int64{}, Known: map[string]bool{}, Validate: 6, UnwindFn: t.UnwindFn}
 	if tier == "thorough" {
 		cfg.TimeoutMs = 60000
@@ -337,6 +338,10 @@ func cmdCheck(args []string) int {
 		}
 		cfg := mkConfig(t, *tier, *workers)
 		cfg.Redirect = h.Redirect
+		cfg.PureFns = map[string]bool{}
+		for _, p := range h.Pure {
+			cfg.PureFns[p] = true
+		}
 		var myKnown []string
 		for _, k := range kfs {
 			if k.Property == pid && k.Status == "known" && (k.Harness == h.Name || k.Harness == "") {
@@ -402,6 +407,7 @@ func cmdCheck(args []string) int {
 		for _, id := range myKnown {
 			pcfg := mkConfig(t, *tier, *workers)
 			pcfg.Redirect = h.Redirect
+			pcfg.PureFns = cfg.PureFns
 			pcfg.Params["probe_"+id] = 1
 			pcfg.Validate = 0
 			pcfg.MaxPaths = cfg.MaxPaths
@@ -648,7 +654,7 @@ func writeEvidence(evdir, pid, tier string, seed int, pc *PropCfg, evs []harness
 		"functions_encoded":             fns,
 		"bounds":                        bounds,
 		"queries":                       map[string]int{"total": queries, "sat": qsat, "unsat": qunsat, "unknown": qunk},
-		"solver":                        "z3 (persistent process per worker, push/pop)",
+		"solver":                        "z3 5.1.0 (z3-new; one persistent process per worker, push/pop)",
 		"solver_time_s":                 solverT,
 		"inconclusive":                  inconclusive,
 		"outside_claim":                 pc.Outside,
